@@ -93,14 +93,16 @@ mutual
       (v : FV) → WFfv f v prev → ¬ f.ignored = true → ∃ b, isZeroFV f v = .ok b
     | .one v, hw, _ => by
       simp only [WFfv] at hw
-      rw [isZeroFV]
-      refine isZeroVal_ok f.ty ?_ v hw.2.2
-      intro sd e
-      cases f with
-      | mk nm t req sl sk ty =>
-        simp only [Fld.ty] at e
-        subst e
-        exact fldOK_struct all i nm t req sl sk sd hf
+      rcases hw.2.2 with ⟨_, hzf⟩ | hwv
+      · rw [hzf]; exact ⟨true, isZeroFV_zero all i f hf⟩
+      · rw [isZeroFV]
+        refine isZeroVal_ok f.ty ?_ v hwv
+        intro sd e
+        cases f with
+        | mk nm t req sl sk ty =>
+          simp only [Fld.ty] at e
+          subst e
+          exact fldOK_struct all i nm t req sl sk sd hf
     | .many _, _, _ => ⟨_, by rw [isZeroFV]⟩
     | .dyn .nil, _, _ => ⟨_, by rw [isZeroFV]⟩
     | .dyn (.val _ _ _), _, _ => ⟨_, by rw [isZeroFV]⟩
@@ -204,6 +206,8 @@ mutual
     | .one v, hw, _ => by
       simp only [WFfv] at hw
       obtain ⟨_, hig, hwv⟩ := hw
+      rcases hwv with ⟨hr, hzf⟩ | hwv
+      · rw [normFV_zero_one f v hig hr hzf]
       by_cases hz : (!f.required && specZero f.ty v) = true
       · rw [normFV_one_absent f v hig hz, isZeroFV_zero all i f hf, isZeroFV,
           isZeroVal_total f.ty (fld_hty all i f hf) v hwv]
@@ -270,6 +274,8 @@ mutual
     | .one v, hw, _ => by
       simp only [WFfv] at hw
       obtain ⟨hsl, hig, hwv⟩ := hw
+      rcases hwv with ⟨hr, hzf⟩ | hwv
+      · rw [normFV_zero_one f v hig hr hzf]
       have hzt := isZeroVal_total f.ty (fld_hty all i f hf) v hwv
       by_cases hz : (!f.required && specZero f.ty v) = true
       · rw [normFV_one_absent f v hig hz]
